@@ -181,6 +181,7 @@ EVENT_RULES = [
     (r"^Events::send::<(?:\w+::)*Have>$", "send<Have>"),
     (r"^Events::send_on_get$", "send_on_get"),
     (r"^Events::send", "send<other>"),
+    (r"^ValuelessProof::into_proof$", "into_proof"),
     (r"^Hypercore::(\w+)", None),  # name = Hypercore::<method>
 ]
 PRODUCERS = {"BlockStore::append_batch", "BlockStore::put", "BlockStore::clear", "Oplog::append_changeset",
@@ -189,6 +190,7 @@ STORAGE_EVENTS_PREFIX = ("W", "R")
 
 # branch events: (regex over the resolved place/callee text of a switch operand, label)
 BRANCH_RULES = [
+    (r"Option::<Vec<u8>>::is_none\(", "value.is_none"),
     (r"^\(?move \(Lt\(copy _2, move \(copy \(\(\(\(\*_1\)\.\d+: oplog::header::Header\)\.\d+: oplog::header::HeaderHints\)\.\d+: u64\)", "start<contig"),
     (r"PartialKeypair\)\.1: std::option::Option<ed25519_dalek::SigningKey>", "secret"),
     (r"Bitfield::get\(", "has"),
@@ -289,6 +291,8 @@ class Model:
                 m = re.match(r"^\(\(\(\(\*_1\)\.\d+: oplog::header::Header\)\.\d+: oplog::header::HeaderHints\)\.\d+: u64\) = (.*);$", s)
                 if m:
                     evs.append("set:contig=" + ("start" if m.group(1).strip() == "copy _2" else "other"))
+                if re.search(r"= Option::<(common::peer::)?Proof>::None;$", s):
+                    evs.append("proof:None")
                 if re.search(r"= (common::error::)?HypercoreError::NotWritable;$", s):
                     evs.append("err:NotWritable")
                 if re.search(r"= (common::error::)?HypercoreError::BadArgument \{", s):
@@ -689,6 +693,19 @@ def specs():
         ("core::clear", "clear emits no event", Table({}, ok={0}, err={0}, alpha=["send<DataUpgrade>", "send<Have>", "send<other>", "send_on_get"])),
         ("core::make_read_only", "make_read_only emits no event", Table({}, ok={0}, err={0}, alpha=["send<DataUpgrade>", "send<Have>", "send<other>", "send_on_get"])),
         ("core::flush_bitfield_and_tree_and_oplog", "flush emits no event", Table({}, ok={0}, err={0}, alpha=["send<DataUpgrade>", "send<Have>", "send<other>", "send_on_get"])),
+    ]
+    # ---- C03: a block the writer no longer holds yields no proof, not a wrong one
+    S["C03"] = [
+        ("core::create_proof", "create_proof: when the requested block's value cannot be read (cleared), Ok(None) is returned and no Proof is built; a Proof is built only after the value was read",
+         Table({(0, "Hypercore::create_valueless_proof"): 1, (1, "Hypercore::get"): 2, (2, "value.is_none:nz"): 3, (3, "proof:None"): 4,
+                (2, "value.is_none:0"): 5, (5, "into_proof"): 6, (1, "into_proof"): 6},
+               ok={4, 6}, err={0, 1, 2}, alpha=[])),
+    ]
+    # ---- C01: reads are gated by the bitfield
+    S["C01"] = [
+        ("core::get", "get: the bitfield is consulted first; a block that is not held returns Ok(None) without touching tree or data store; a held block is located through the tree (byte_range) and then read from the data store",
+         Table({(0, "Bitfield::get"): 1, (1, "has:0"): 2, (2, "send_on_get"): 2, (1, "has:nz"): 3, (3, "Hypercore::byte_range"): 4, (4, "BlockStore::read"): 4, (4, "R"): 4},
+               ok={2, 4}, err={3, 4}, alpha=["W:?", "MerkleTree::commit", "Bitfield::update", "Bitfield::set_range"])),
     ]
     # ---- C08: contiguous length maintenance in core.rs
     upd = lambda fn, what: (fn, what + ": every bitfield update is immediately followed by the contiguous-length update (before the tree commit / the next entry)",
